@@ -23,19 +23,27 @@ RULE = ("cases: CouplingMarkovChain(StepModel in 4 representations x variation f
         "built on the un-refined grid (1-d step models exact-ish 1e-12; 2-d table copulas and Clayton x real margins).  "
         "real stream: HEM/Merton/VG/CGMY on probability-step, geometric, with-bounds and uniform grids, levels 1-3, same brute-force "
         "oracle incl. the mass coupled to 0 (1e-8 of the intensity).  non-trivial = distinct (chain, level, increment) with an odd increment")
-MODELLED = ["CouplingSimulation.probability_to_right_jump / coupling_state / coupling_states_for_a_slice, next_level bookkeeping, "
-            "simulate_diffusion_with_coupling (hand model Model/Coupling1d.v, exact correspondence)",
+MODELLED = ["CouplingSimulation.probability_to_right_jump / coupling_state / coupling_states_for_a_slice (exact correspondence groups state1d, "
+            "prob1d, slice1d), next_level bookkeeping (group levels), CouplingSimulation.simulate_diffusion_with_coupling of the fixed-dates "
+            "simulation (group diffusion, 1e-12); coupling_index is tied to coupling_state by theorem C03_coupling_state_is_index; the "
+            "fresh-normals override CouplingSimulationWithJumpTimes.simulate_diffusion_with_coupling is not modelled",
             "CouplingLevyCopulaSimulation.__coupling_state in dimension 2 (Model/CouplingNd.v, exact correspondence on density tables); "
             "dimension 3 and the diffusion matrices (scipy.linalg.sqrtm) are not modelled",
             "Poisson thinning / 'same law' of the coarse path: the probabilistic step from equal rates, drift and diffusion to equal "
             "law is on paper, not formalised",
             "couplingsde.py (SDE coupling built on the chain coupling): not modelled (see THEOREM_NOTES)",
             "np.sqrt in the equivalent diffusion coefficient: the model works with squares"]
-ASSUMPTIONS = ["mass a b = fine_process.model.mass, additive, non-negative, respects == (C09 / C01_step_mass_is_a_measure)",
-               "grid.middle strictly inside a gap, middle(x,x)=x, respects == (C13_amid_ok)",
+ASSUMPTIONS = ["mass a b = fine_process.model.mass, additive and non-negative on intervals NOT containing 0, respects == "
+               "(C01_step_mass_is_a_measure for step measures; C09 is not formally composed)",
+               "two middles mc (coarse level: used by refine and the coarse chain) and mf (refined level): strictly inside a gap, "
+               "middle(x,x)=x at non-zero x; proved instance: both the arithmetic mean",
                "the coupling uniform is uniform on [0,1) and independent of the fine increment (C08)"]
 THEOREM_NOTES = {
     "number system": "proved over Q inside a Section with an abstract additive non-negative interval mass (simplification of DESIGN 2.1)",
+    "known finding": "a copula-coupling mismatch is accepted as F-C03-1 only if the implementation's inflow equals, state by state, the "
+                     "prediction of the faithful model of the recorded defect (Python re-statement tied to Coq's inflow2 by the group "
+                     "inflownd); any other mismatch is a new violation (matches_known)",
+    "C03_coupling_law": "links prob_to/inflow to coupling_index/coupling_state: target p+1 iff u < pr, p-1 iff u >= pr",
     "C03_telescoping_nd_refuted": "F-C03-1: the faithful 2-d model of __coupling_state violates the identity on an explicit density table "
                                   "(vm_compute witness: inflow 23/36 vs coarse rate 1/4 at coarse state (1,0)); the implementation is replayed on the same table",
     "C03_telescoping_nd_joint_instance": "only an instance (the witness table, all 24 coarse states by vm_compute): the general theorem "
@@ -44,7 +52,7 @@ THEOREM_NOTES = {
     "expected coarse payoff = expected fine payoff at level l-1": "derived on paper from C03_telescoping_1d + C03_drift_diffusion_frozen + "
                                                                   "C03_same_brownian_increments + Poisson thinning; not formalised",
 }
-LEVEL_TEXT = ("Proof: 9 Coq theorems (closed under the global context). One-dimensional coupling, for every admissible axis, every middle "
+LEVEL_TEXT = ("Proof: 12 Coq theorems (closed under the global context). One-dimensional coupling, for every admissible axis, every middle "
               "function with the stated properties and every additive non-negative mass: after refine the coarse grid is the even "
               "indices and the coarse cells are bounded by the odd states; coupling_state copies even increments and moves odd ones to "
               "an adjacent coarse state; sum over fine states of rate x P(fine -> y) equals the coarse chain's rate of y (states of "
